@@ -8,13 +8,8 @@ from .c02 import guards
 from .mapper import MP, MapperLab, flag_args, impl_fn, map_args
 
 LEVEL = 'other'
-CORE_DEREF = {
-    MP + 'mapped_page_table::PageTableWalker::<P>::next_table': 1,
-    MP + 'mapped_page_table::PageTableWalker::<P>::next_table_mut': 1,
-    MP + "recursive_page_table::RecursivePageTable::<'a>::create_next_table::inner": 1,
-}
-ALLOC = 'structures::paging::frame_alloc::FrameAllocator::allocate_frame'
-DEALLOC = 'structures::paging::frame_alloc::FrameDeallocator::deallocate_frame'
+ALLOC = 'structures::paging::FrameAllocator::allocate_frame'
+DEALLOC = 'structures::paging::FrameDeallocator::deallocate_frame'
 
 
 def run(chk):
